@@ -129,6 +129,16 @@ fn rename_if(v: &Value) -> Value {
     }
 }
 
+/// {"var": ""} -> {"var": "current"} (the element inside reduce)
+fn rename_current(v: &Value) -> Value {
+    match v {
+        Value::Object(m) if m.len() == 1 && m.get("var") == Some(&json!("")) => json!({"var": "current"}),
+        Value::Object(m) => Value::Object(m.iter().map(|(k, x)| (k.clone(), rename_current(x))).collect()),
+        Value::Array(a) => Value::Array(a.iter().map(rename_current).collect()),
+        x => x.clone(),
+    }
+}
+
 pub fn run(ctx: &mut Ctx) {
     let maxlen = if ctx.tier_thorough { 7 } else { 6 };
     let da = data_a();
@@ -284,6 +294,34 @@ pub fn run(ctx: &mut Ctx) {
                     json!({"filter": [[1, 2], c]}), json!({"all": [[[0, 1], [1, 0]], c]}), json!({"map": [[[0, 1], "ab"], {"if": [c, "then", "else"]}]}),
                 ] {
                     ctx.check("index-conditions", &r, d);
+                }
+            }
+        }
+    }
+    // control flow inside the per-element expression of an iteration: the unselected operand (an error at
+    // evaluation, an ill-formed rule, a tracer - none of them reading the data) is still never evaluated, for
+    // any number of elements; the selected one is evaluated once per element
+    {
+        let poisons = [json!({"in": [1, 2]}), json!({"==": []}), json!({"log": "P"}), json!({"+": ["x"]})];
+        let colls = [json!([1, 1]), json!([0, 0]), json!([1, 0, 1]), json!([1]), json!([0]), json!([])];
+        for p in &poisons {
+            if !ctx.mine() {
+                continue;
+            }
+            let bodies = [
+                json!({"if": [{"var": ""}, "yes", p]}), json!({"if": [{"var": ""}, p, "no"]}), json!({"and": [{"var": ""}, p]}), json!({"or": [{"var": ""}, p]}),
+                json!({"?:": [{"!": [{"var": ""}]}, p, {"log": "sel"}]}), json!({"if": [{"and": [{"var": ""}, p]}, "t", "f"]}), json!({"if": [{"or": [{"var": ""}, p]}, "t", "f"]}),
+                json!({"cat": [{"if": [{"var": ""}, "y", p]}, "!"]}),
+            ];
+            for c in &colls {
+                for b in &bodies {
+                    ctx.edge();
+                    for host in ["map", "filter", "all", "some", "none"] {
+                        ctx.check("in-iteration-body:V", &op(host, vec![json!({"var": "xs"}), b.clone()]), &json!({"xs": c}));
+                    }
+                    ctx.check("in-iteration-body:L", &op("map", vec![c.clone(), b.clone()]), &null);
+                    let rb = rename_current(b);
+                    ctx.check("in-iteration-body:reduce", &json!({"reduce": [{"var": "xs"}, {"cat": [{"var": "accumulator"}, rb]}, ""]}), &json!({"xs": c}));
                 }
             }
         }
